@@ -1,7 +1,11 @@
 package specgen
 
 import (
+	"fmt"
+
 	"verif/internal/lexspec"
+	"verif/internal/oracle/rx"
+	"verif/internal/rng"
 )
 
 // TinyLexer is a fixed small lexer specification (used to warm caches and in
@@ -12,4 +16,352 @@ func TinyLexer() *lexspec.Spec {
 		{Rule: &lexspec.Rule{Kind: lexspec.RToken, Name: "PLUS", Rx: lexspec.Lit{S: []rune("+")}}},
 		{Rule: &lexspec.Rule{Kind: lexspec.RFrag, Rx: lexspec.Card{X: lexspec.Class{Items: []lexspec.Item{{Lo: ' ', Hi: ' '}, {Lo: '\n', Hi: '\n'}}}, Op: "+"}, Actions: []lexspec.Action{{Kind: lexspec.ADiscard}}}},
 	}}
+}
+
+// Boundary code points: class-boundary and UTF-8 width boundaries.
+var boundaryPoints = []rune{0x00, 0x01, 0x7F, 0x80, 0x7FF, 0x800, 0xD7FF, 0xE000, 0xFFFD, 0xFFFF, 0x10000, 0x10FFFF}
+
+var asciiPool = []rune{'a', 'b', 'c', 'd', 'x', 'y', 'z', '0', '1', '9', ' ', '\t', '-', '+', '*', '/', '"', '\'', '\\', ']', '[', '{', '}', '.', '_', 'A', 'Z'}
+var uniPool = []rune{0xE9, 0x3A9, 0x4E16, 0x1F600, 0xFF, 0x100}
+
+// Alphabet is the small set of code points a lexer case is built over.
+type Alphabet []rune
+
+func drawAlphabet(r *rng.R, n int, wide bool) Alphabet {
+	seen := map[rune]bool{}
+	var a Alphabet
+	add := func(c rune) {
+		if !seen[c] {
+			seen[c] = true
+			a = append(a, c)
+		}
+	}
+	for len(a) < n {
+		switch {
+		case wide && r.Chance(1, 4):
+			add(boundaryPoints[r.Intn(len(boundaryPoints))])
+		case wide && r.Chance(1, 5):
+			add(uniPool[r.Intn(len(uniPool))])
+		default:
+			add(asciiPool[r.Intn(len(asciiPool))])
+		}
+	}
+	return a
+}
+
+// LexOpts tunes RandomLexer.
+type LexOpts struct {
+	Wide       bool // use non-ASCII and boundary code points
+	Modes      bool // several modes with push/pop
+	Frags      bool // fragments with @emit / accumulate
+	MaxRules   int
+	Macros     bool
+	NoNullable bool // guarantee that no rule matches the empty string
+}
+
+type lexGen struct {
+	r      *rng.R
+	a      Alphabet
+	o      LexOpts
+	macros []string
+	ctx    *rx.Ctx
+	mdefs  map[string]lexspec.Rx
+}
+
+func (g *lexGen) pick() rune { return g.a[g.r.Intn(len(g.a))] }
+
+func (g *lexGen) class() lexspec.Class {
+	r := g.r
+	c := lexspec.Class{Raw: r.Chance(1, 2)}
+	n := r.Range(1, 3)
+	for i := 0; i < n; i++ {
+		lo := g.pick()
+		hi := lo
+		if r.Chance(1, 2) {
+			hi = g.pick()
+			if hi < lo {
+				lo, hi = hi, lo
+			}
+			if r.Chance(1, 3) && hi < 0x10FFFF {
+				hi++ // make ranges that end just past an alphabet point
+			}
+			if hi >= 0xD800 && hi <= 0xDFFF {
+				hi = 0xD7FF // a surrogate cannot be written as an escape end point
+			}
+			if hi < lo {
+				lo = hi
+			}
+		}
+		c.Items = append(c.Items, lexspec.Item{Lo: lo, Hi: hi})
+	}
+	if r.Chance(1, 5) {
+		c.Neg = true
+		if c.Set().Empty() {
+			c.Neg = false
+		}
+	}
+	return c
+}
+
+func (g *lexGen) atom() lexspec.Rx {
+	r := g.r
+	switch r.Intn(10) {
+	case 0, 1, 2:
+		n := r.Range(1, 3)
+		s := make([]rune, n)
+		for i := range s {
+			s[i] = g.pick()
+		}
+		l := lexspec.Lit{S: s}
+		if r.Chance(1, 4) {
+			l.Esc = make([]bool, n)
+			for i := range l.Esc {
+				l.Esc[i] = r.Chance(1, 2)
+			}
+		}
+		return l
+	case 3, 4, 5, 6:
+		return g.class()
+	case 7:
+		a, b := g.class(), g.class()
+		a.Neg, b.Neg = false, false
+		d := lexspec.Diff{A: a, B: b}
+		if a.Set().Diff(b.Set()).Empty() {
+			return a
+		}
+		return d
+	case 8:
+		if len(g.macros) > 0 {
+			return lexspec.Ref{Name: g.macros[r.Intn(len(g.macros))]}
+		}
+		return g.class()
+	default:
+		if r.Chance(1, 3) {
+			return lexspec.Any{}
+		}
+		return g.class()
+	}
+}
+
+func (g *lexGen) expr(depth int) lexspec.Rx {
+	r := g.r
+	if depth <= 0 {
+		return g.atom()
+	}
+	switch r.Intn(8) {
+	case 0, 1:
+		n := r.Range(2, 3)
+		var parts []lexspec.Rx
+		for i := 0; i < n; i++ {
+			parts = append(parts, g.expr(depth-1))
+		}
+		return lexspec.Cat{Parts: parts}
+	case 2:
+		n := r.Range(2, 3)
+		var alts []lexspec.Rx
+		for i := 0; i < n; i++ {
+			alts = append(alts, g.expr(depth-1))
+		}
+		return lexspec.Alt{Alts: alts}
+	case 3, 4:
+		ops := []string{"?", "*", "+"}
+		return lexspec.Card{X: g.expr(depth - 1), Op: ops[r.Intn(3)]}
+	default:
+		return g.atom()
+	}
+}
+
+// nonNullable wraps x so that it cannot match the empty string.
+func (g *lexGen) nonNullable(x lexspec.Rx) lexspec.Rx {
+	re := lexspec.ToRe(g.ctx, x, g.mdefs)
+	if g.ctx.IsEmpty(re) {
+		return lexspec.Lit{S: []rune{g.pick()}}
+	}
+	if !g.ctx.Nullable(re) {
+		return x
+	}
+	return lexspec.Cat{Parts: []lexspec.Rx{lexspec.Lit{S: []rune{g.pick()}}, x}}
+}
+
+var lexTokNames = []string{"T0", "T1", "T2", "T3", "T4", "T5", "T6", "T7", "T8", "T9", "T10", "T11"}
+var lexTokNamesAlt = []string{"ID", "NUM", "KW_IF", "STR", "OP", "LP", "RP", "WS_TOK", "DOT_DOT", "A1", "B2", "C3"}
+var lexModeNames = []string{"Str", "Alt", "Cmt", "Inner"}
+
+// RandomLexer draws a lexer specification. The caller compiles it with the
+// reference engine to decide whether it satisfies a property's preconditions.
+func RandomLexer(r *rng.R, o LexOpts) (*lexspec.Spec, Alphabet) {
+	if o.MaxRules == 0 {
+		o.MaxRules = 6
+	}
+	g := &lexGen{r: r, o: o, ctx: rx.NewCtx(), mdefs: map[string]lexspec.Rx{}}
+	g.a = drawAlphabet(r, r.Range(3, 6), o.Wide)
+	s := &lexspec.Spec{}
+	names := lexTokNames
+	if r.Chance(1, 3) {
+		names = lexTokNamesAlt
+	}
+	nextTok := 0
+	newTok := func() string {
+		n := names[nextTok%len(names)]
+		if nextTok >= len(names) {
+			n = fmt.Sprintf("%s_%d", n, nextTok)
+		}
+		nextTok++
+		return n
+	}
+	if o.Macros && r.Chance(1, 2) {
+		nm := r.Range(1, 2)
+		for i := 0; i < nm; i++ {
+			name := fmt.Sprintf("M%d", i)
+			x := g.nonNullable(g.expr(1))
+			g.mdefs[name] = x
+			s.Entries = append(s.Entries, lexspec.Entry{Rule: &lexspec.Rule{Kind: lexspec.RMacro, Name: name, Rx: x}})
+			g.macros = append(g.macros, name)
+		}
+	}
+	var modes []string
+	if o.Modes {
+		n := r.Range(1, 3)
+		modes = append(modes, lexModeNames[:n]...)
+	}
+	mkRules := func(inMode bool, modeName string) []lexspec.Rule {
+		var rules []lexspec.Rule
+		n := r.Range(2, o.MaxRules)
+		var emitted []string
+		for i := 0; i < n; i++ {
+			x := g.expr(r.Range(0, 2))
+			// overlap on purpose: sometimes reuse a prefix of an earlier rule
+			if i > 0 && r.Chance(1, 4) {
+				x = lexspec.Cat{Parts: []lexspec.Rx{rules[r.Intn(len(rules))].Rx, g.atom()}}
+			}
+			if o.NoNullable || r.Chance(9, 10) {
+				x = g.nonNullable(x)
+			}
+			rule := lexspec.Rule{Rx: x}
+			isFrag := r.Chance(1, 4) || (o.Frags && r.Chance(1, 3))
+			if isFrag {
+				rule.Kind = lexspec.RFrag
+				switch {
+				case o.Frags && len(emitted) > 0 && r.Chance(1, 3):
+					rule.Actions = append(rule.Actions, lexspec.Action{Kind: lexspec.AEmit, Arg: emitted[r.Intn(len(emitted))]})
+				case o.Frags && r.Chance(1, 3):
+					// accumulate (no action)
+				default:
+					rule.Actions = append(rule.Actions, lexspec.Action{Kind: lexspec.ADiscard})
+				}
+			} else {
+				rule.Kind = lexspec.RToken
+				rule.Name = newTok()
+				emitted = append(emitted, rule.Name)
+			}
+			if o.Modes && len(modes) > 0 {
+				switch {
+				case r.Chance(1, 4):
+					target := modes[r.Intn(len(modes))]
+					if r.Chance(1, 6) {
+						target = "" // re-enter the default mode
+					}
+					rule.Actions = insertAt(r, rule.Actions, lexspec.Action{Kind: lexspec.APush, Arg: target})
+				case inMode && r.Chance(1, 3):
+					rule.Actions = insertAt(r, rule.Actions, lexspec.Action{Kind: lexspec.APop})
+				}
+			}
+			rules = append(rules, rule)
+		}
+		if inMode {
+			// make sure the mode can be left
+			hasPop := false
+			for _, ru := range rules {
+				for _, a := range ru.Actions {
+					if a.Kind == lexspec.APop {
+						hasPop = true
+					}
+				}
+			}
+			if !hasPop {
+				rules = append(rules, lexspec.Rule{Kind: lexspec.RToken, Name: newTok(), Rx: lexspec.Lit{S: []rune{g.pick()}}, Actions: []lexspec.Action{{Kind: lexspec.APop}}})
+			}
+		}
+		return rules
+	}
+	def := mkRules(false, "")
+	// interleave mode blocks with default-mode rules
+	modeAt := map[int][]string{}
+	for _, m := range modes {
+		at := r.Intn(len(def) + 1)
+		modeAt[at] = append(modeAt[at], m)
+	}
+	emitModes := func(at int) {
+		for _, m := range modeAt[at] {
+			rules := mkRules(true, m)
+			s.Entries = append(s.Entries, lexspec.Entry{Mode: &lexspec.Mode{Name: m, Rules: rules}})
+		}
+	}
+	for i := range def {
+		emitModes(i)
+		ru := def[i]
+		s.Entries = append(s.Entries, lexspec.Entry{Rule: &ru})
+	}
+	emitModes(len(def))
+	return s, g.a
+}
+
+func insertAt(r *rng.R, as []lexspec.Action, a lexspec.Action) []lexspec.Action {
+	i := r.Intn(len(as) + 1)
+	out := append([]lexspec.Action(nil), as[:i]...)
+	out = append(out, a)
+	return append(out, as[i:]...)
+}
+
+// InvalidUTF8 are byte sequences that are not valid UTF-8.
+var InvalidUTF8 = [][]byte{{0x80}, {0xBF}, {0xC0, 0x80}, {0xE4, 0xB8}, {0xF0, 0x9F, 0x98}, {0xFF}, {0xED, 0xA0, 0x80}, {0xF4, 0x90, 0x80, 0x80}, {0xC3}}
+
+// LexInput builds one hostile input for a compiled specification: pieces are
+// matches of the rules, near-matches, alphabet characters, boundary code
+// points and invalid UTF-8; the result may end in the middle of a construct.
+func LexInput(r *rng.R, ctx *rx.Ctx, res []*rx.Re, a Alphabet, wide bool, maxPieces int) []byte {
+	var out []byte
+	n := r.Range(0, maxPieces)
+	for i := 0; i < n; i++ {
+		switch r.Intn(12) {
+		case 0, 1, 2, 3, 4, 5:
+			if len(res) > 0 {
+				if s, ok := ctx.Sample(res[r.Intn(len(res))], r.Intn, 1+r.Intn(6)); ok {
+					s = fixRunes(s, a)
+					if r.Chance(1, 6) && len(s) > 0 {
+						s = s[:r.Intn(len(s))] // truncated match
+					}
+					out = append(out, []byte(string(s))...)
+				}
+			}
+		case 6, 7, 8:
+			out = append(out, []byte(string(a[r.Intn(len(a))]))...)
+		case 9:
+			if wide {
+				out = append(out, []byte(string(boundaryPoints[r.Intn(len(boundaryPoints))]))...)
+			} else {
+				out = append(out, byte(asciiPool[r.Intn(len(asciiPool))]))
+			}
+		case 10:
+			if wide {
+				out = append(out, InvalidUTF8[r.Intn(len(InvalidUTF8))]...)
+			} else {
+				out = append(out, '\n')
+			}
+		default:
+			out = append(out, '\n')
+		}
+	}
+	return out
+}
+
+// fixRunes replaces code points that cannot be encoded in UTF-8 (surrogates)
+// by an alphabet character.
+func fixRunes(s []rune, a Alphabet) []rune {
+	for i, c := range s {
+		if c >= 0xD800 && c <= 0xDFFF {
+			s[i] = a[0]
+		}
+	}
+	return s
 }
